@@ -65,12 +65,15 @@ func Draw(t *rapid.T) *pbt.Case {
 	}
 	c := &pbt.Case{}
 	sg := gen.Hostile()
-	alpha := rapid.SampledFrom([]string{"hostile", "hostile", "regular"}).Draw(t, "alphabet")
+	alpha := rapid.SampledFrom([]string{"hostile", "hostile", "regular", "marker-free"}).Draw(t, "alphabet")
 	if alpha == "regular" {
 		sg = gen.Regular()
 	}
+	if alpha == "marker-free" {
+		sg = gen.MarkerFree()
+	}
 	c.SetStr("alphabet", alpha)
-	g := gen.Default(sg).Boost(2, "uwrapnofmt", "uwrapfmtold", "uleaffmtold", "uwrapformatter", "pkgmsg", "goerrorf", "uwrapsafefmt", "uleafsafefmt")
+	g := gen.Default(sg).Boost(2, "uwrapnofmt", "uwrapfmtold", "uleaffmtold", "uwrapformatter", "pkgmsg", "goerrorf", "uwrapsafefmt", "uleafsafefmt").With("netopsrc")
 	c.Spec = g.Draw(t, rapid.IntRange(1, maxB).Draw(t, "budget"))
 	c.SetStr("variant", rapid.SampledFrom([]string{"local", "decoded", "opaque", "legacy-barrier"}).Draw(t, "variant"))
 	return c
@@ -101,7 +104,12 @@ func Check(c *pbt.Case, r *pbt.R) {
 		wire.Rename(&enc, func(string) bool { return true })
 		e = errors.DecodeError(wire.Ctx, enc)
 	}
-	regular := gen.SpecRegular(c.Spec)
+	// Congruence is claimed for marker-free inputs. Observed on the
+	// unchanged tree: it holds for every non-empty valid UTF-8 string
+	// without marker runes (newlines at any position included), and
+	// fails for invalid UTF-8, which redact replaces; the check covers
+	// the former.
+	regular := gen.SpecMarkerFree(c.Spec)
 	mfree := markerFree(c.Spec)
 	for _, f := range []string{"%v", "%s", "%+v"} {
 		out := string(redact.Sprintf(f, e))
@@ -152,8 +160,11 @@ func Check(c *pbt.Case, r *pbt.R) {
 	}
 	r.Count("alphabet", c.S["alphabet"])
 	r.Count("variant", c.S["variant"])
-	r.Count("class", map[bool]string{true: "regular (congruence checked)", false: "not regular"}[regular])
+	r.Count("class", map[bool]string{true: "marker-free valid UTF-8 (congruence checked)", false: "markers or invalid UTF-8"}[regular])
 	r.Count("marker-free", fmt.Sprint(mfree))
+	if regular && !gen.SpecRegular(c.Spec) {
+		r.Count("features", "congruence checked with a leading, trailing or repeated newline")
+	}
 	if sandwich {
 		r.Count("features", "foreign layer between two library layers")
 	}
